@@ -24,8 +24,8 @@ CHECKS = {
     },
     "C14": {
         "technique": "Lean 4 proof (induction on the stack; invariant by induction over histories) + model/implementation correspondence",
-        "text": "Lean theorems over a model of ExitStack.__aexit__/push/callback/enter_context/pop_all/aclose: unwinding equals nested async-with for every stack, behaviour and block outcome (C14_nested, C14_order, C14_callback_cannot_suppress); every registered exit runs at most once over every history, failed enters are never exited, pop_all moves exits (C14_once, C14_only_registered, C14_ran_is_gone, C14_popAll, C14_unwind_again). The model is tied to /repo on every run by executing model, real ExitStack, literally nested async-with and contextlib.AsyncExitStack on the same enumerated/random stacks and histories.",
-        "note": "Trusted: Lean kernel; axioms propext/Quot.sound only; the hand-written model is tied to the code by sampled correspondence (exhaustive over the behaviour grid for stacks of <=3 (quick) / <=4 (thorough) entries, random histories). Not modelled: __context__ stitching, exits that register further exits during unwinding.",
+        "text": "Lean theorems over a model of ExitStack.__aexit__/push/callback/enter_context/pop_all/aclose: unwinding equals nested async-with for every stack, behaviour and block outcome (C14_nested, C14_order, C14_callback_cannot_suppress); every registered exit runs at most once over every history, failed enters are never exited, pop_all moves exits (C14_once, C14_only_registered, C14_ran_is_gone, C14_popAll, C14_unwind_again). The model is tied to /repo on every run by executing model, real ExitStack, literally nested async-with and contextlib.AsyncExitStack on the same enumerated/random stacks and histories. Exits that touch their own stack while it unwinds (pop_all / push / callback from inside an exit): Machines/ExitStackReentrant.lean models asyncstdlib's and CPython's loops over several stacks; C14_reentrant_refines_contextlib (same log, outcome and final stacks for every script and history), C14_reentrant_once, C14_reentrant_popall_moves / _popall_moved_run_at_close, C14_reentrant_pushed_runs_next, C14_reentrant_conservative (no stack actions => the existing machine); compared 1:1 with both real libraries on the reentrant family.",
+        "note": "Trusted: Lean kernel; axioms propext/Quot.sound only; the hand-written model is tied to the code by sampled correspondence (exhaustive over the behaviour grid for stacks of <=3 (quick) / <=4 (thorough) entries, random histories). Not modelled: __context__ stitching.",
     },
     "C16": {
         "technique": "Lean 4 proof (simulation between two state machines under a reachable-state invariant, induction over operation sequences) + model/implementation correspondence",
